@@ -97,6 +97,24 @@ CLAIMED.update({
                      "unnamed after the declared ones, missing columns all-NaN."),
 })
 
+CLAIMED.update({
+    "C01": dict(cat="exploration", ref="DESIGN.md 3 (C01)",
+                technique="deterministic simulation of save/load runs: seeded in-memory LASFile x writer-option swarm written "
+                          "through a simulated output channel and read back through a simulated input channel (codec, newline, "
+                          "delivery policy) with both engines; cell-by-cell oracle with the tolerance derived from the printed token",
+                text="Same curves/order/mnemonics/rows, every finite sample within half a unit of its last printed digit, NaN <-> "
+                     "NULL outside the index, index never nulled - on seeded shapes (curve counts biased to multiples of the "
+                     "fields per wrapped line, rows beyond the sniff window), magnitudes and option combinations. Tier B: the "
+                     "workload dominates; the simulator varies channels and delivery."),
+    "C06": dict(cat="exploration", ref="DESIGN.md 3 (C06)",
+                technique="deterministic simulation of load and save/load runs through simulated channels and delivery policies, both "
+                          "engines and null policies, on seeded documents with NULL-equal / near-NULL cells at every site; exact "
+                          "if-and-only-if oracle per cell, NaN-set equality after write -> read",
+                text="Under strict a cell is NaN iff it is in a non-index numeric column and numerically equals the ~Well NULL "
+                     "(any spelling, incl. zero and >6-digit NULLs); text columns and the index are untouched; 'none' changes "
+                     "nothing; the NaN set survives write -> read."),
+})
+
 NOT_APPLICABLE = {
     "C04": "read_header_line is a pure function of one already-delivered line (regex cascade): no stream position, "
            "history, fault or interleaving can influence it, so deterministic simulation adds nothing (DESIGN.md 4)",
